@@ -17,6 +17,8 @@ def random_processes(rng, nS, n):
         a = st[int(rng.randint(nS))]
         rate = ['%s*%s' % (p, a), '%s*%s*%s' % (p, a, st[int(rng.randint(nS))]), '%s' % p, '%s*%s/(1+%s)' % (p, a, a)][int(rng.randint(4))]
         mag = ['1', '2', '3', PARAMS[int(rng.randint(len(PARAMS)))]][int(rng.randint(4))] if rng.uniform() < 0.5 else '1'
+        if procs and rng.uniform() < 0.4:
+            rate = procs[int(rng.randint(len(procs)))]['rate']        # shares its rate with an earlier process: can be grouped into one Event
         procs.append({'type': ty, 'o': st[o], 'd': st[d], 'rate': rate, 'mag': mag})
     return procs
 
@@ -38,12 +40,13 @@ def reference(nS, procs):
 
 
 def build(nS, procs, routes, order, decl, incremental):
-    """routes[k] in {'event', 'event-member-rate', 'transition-in-event-list', 'legacy', 'ode', 'birth-by-origin'}"""
+    """routes[k] in {'event', 'grouped-event', 'event-member-rate', 'transition-in-event-list', 'legacy', 'ode', 'birth-by-origin'}"""
     from contracts import native
     pm, ou = native.imp('pygom.model'), native.imp('pygom.model.ode_utils')
     T = pm.Transition
     st = STATES[:nS]
     ev, tr, bd, od = [], [], [], []
+    grouped = {}
     for k in order:
         p, route = procs[k], routes[k]
         ty = p['type']
@@ -69,8 +72,13 @@ def build(nS, procs, routes, order, decl, incremental):
             ev.append(T(equation=p['rate'], **kw))
         elif route == 'event-member-rate':
             ev.append(pm.Event(transition_list=[T(equation=p['rate'], **kw)]))
+        elif route == 'grouped-event':
+            # processes with the same rate become the member transitions of ONE Event, in the order they are met
+            grouped.setdefault(p['rate'], []).append(T(**kw))
         else:
             ev.append(pm.Event(rate=p['rate'], transition_list=[T(**kw)]))
+    for rate, members in grouped.items():
+        ev.append(pm.Event(rate=rate, transition_list=members))
     sdecl = {'list': st, 'string': ', '.join(st), 'string-spaces': ' '.join(st)}[decl[0]]
     pdecl = {'list': PARAMS, 'string': ','.join(PARAMS), 'string-spaces': ' '.join(PARAMS)}[decl[1]]
     with native.quiet():
@@ -139,7 +147,8 @@ def make_case(rng, k):
                 out.append(pref)
         return out
     for label, pref in (('events', 'event'), ('member-rate', 'event-member-rate'), ('transitions-in-event-list', 'transition-in-event-list'),
-                        ('legacy-lists', 'legacy'), ('explicit-odes', 'ode'), ('births-by-origin', 'birth-by-origin'), ('mixed', 'mixed'), ('mixed-2', 'mixed')):
+                        ('legacy-lists', 'legacy'), ('explicit-odes', 'ode'), ('births-by-origin', 'birth-by-origin'), ('mixed', 'mixed'), ('mixed-2', 'mixed'),
+                        ('grouped-events', 'grouped-event'), ('grouped-events-2', 'grouped-event')):
         variants.append({'label': label, 'routes': routes_for(pref), 'order': rng.permutation(n).tolist(),
                          'decl': [['list', 'string', 'string-spaces'][int(rng.randint(3))] for _ in range(2)], 'incremental': bool(rng.randint(2))})
     # the list-valued constructor arguments and the incremental calls, each for the pure legacy and the pure event encodings
@@ -167,11 +176,11 @@ def run(tier='quick', seed=0):
         elif len(samples) < 2:
             samples.append({'processes': case['procs'], 'variants': [v['label'] for v in case['variants']]})
     return {'evaluations': evals, 'distinct_nontrivial': len(distinct), 'failures': failures, 'samples': samples,
-            'rule': 'seeded random process sets (1-5 T/B/D processes with numeric or symbolic magnitudes on 1-4 states), each built through 12 route assignments (Event objects, '
+            'rule': 'seeded random process sets (1-5 T/B/D processes with numeric or symbolic magnitudes on 1-4 states), each built through 14 route assignments (Event objects, one Event per group of processes that share a rate (member transitions in two random orders), '
                     'Event with the rate on its member, Transition in the event list, legacy transition/birth_death lists, explicit ODE terms, births named by origin, two random '
                     'mixtures), random order, list / comma / space string declarations, constructor or incremental add_* calls; symbolic ODE and numeric ode/jacobian against an '
                     'independent sympy reference; evaluations = model variants, distinct = process sets',
-            'bound': '%d process sets x 12 variants' % n}
+            'bound': '%d process sets x 14 variants' % n}
 
 
 def replay(c):
